@@ -31,7 +31,7 @@ func TestSweep(t *testing.T) {
 				if procs == 16 { // a long buffer: writer windows of hundreds of samples with sizes that are not multiples of 8
 					F, span = 8+101*kitMax(W, 1), 101*kitMax(W, 1)
 				}
-				c := &Case{T: tn, C: 1 + ti%3, F: F, RO: 8, Procs: procs, Repeat: rep}
+				c := &Case{T: tn, C: 1 + ti%3, F: F, RO: 8, Procs: procs, Repeat: rep, Partial: (ti % 3) * (procs % 2)}
 				c.Bounds = []int{8}
 				for w := 0; w < W; w++ {
 					c.Bounds = append(c.Bounds, 8+(w+1)*span/W)
